@@ -71,6 +71,9 @@ pub struct PanicRecord {
     pub message: String,
     pub location: String,
     pub thread: String,
+    /// innermost frame of server / sdk code on the panicking stack ("" if none)
+    #[serde(default)]
+    pub repo_frame: String,
 }
 
 static PANICS: Mutex<Vec<PanicRecord>> = Mutex::new(Vec::new());
@@ -89,11 +92,27 @@ pub fn install_panic_hook() {
             .map(|l| format!("{}:{}", l.file(), l.line()))
             .unwrap_or_default();
         let thread = std::thread::current().name().unwrap_or("?").to_string();
+        let mut repo_frame = String::new();
+        if !location.contains("/repo/") {
+            // a panic raised inside a dependency (e.g. `bytes` underflow): attribute it by the stack
+            let bt = std::backtrace::Backtrace::force_capture().to_string();
+            for line in bt.lines() {
+                let l = line.trim();
+                if let Some(pos) = l.find(": ") {
+                    let f = &l[pos + 2..];
+                    if f.starts_with("iggy::") || f.starts_with("server::") || f.starts_with("<iggy::") || f.starts_with("<server::") {
+                        repo_frame = f.chars().take(160).collect();
+                        break;
+                    }
+                }
+            }
+        }
         if let Ok(mut p) = PANICS.lock() {
             p.push(PanicRecord {
                 message,
                 location,
                 thread,
+                repo_frame,
             });
         }
     }));
@@ -105,7 +124,9 @@ pub fn take_panics() -> Vec<PanicRecord> {
 
 /// Panics raised by code under /repo (server or sdk), as opposed to the harness.
 pub fn is_repo_panic(p: &PanicRecord) -> bool {
-    p.location.starts_with("/repo/") || p.location.contains("/repo/")
+    // raised in server / sdk source, or raised (e.g. inside a dependency such as `bytes`)
+    // on one of the embedded server's runtime threads
+    p.location.starts_with("/repo/") || p.location.contains("/repo/") || p.thread.starts_with("node-rt") || !p.repo_frame.is_empty()
 }
 
 // ---------------------------------------------------------------- hashing, crc
